@@ -678,4 +678,79 @@ def hashedAttributes (rs : Cls → Option Recipe) (tools : List (String × Strin
         (as.filter (·.attr == n)).all fun a => (recipeMembers rs 4 c).contains a.member
     | none => [])
 
+/-! ## `ExternalCommand::isResultValid`: is the stored result of a command still valid on a scan?
+
+The chain (checks before the loop, the steps of one loop iteration, the value after the loop) is generated by
+extract/x_bsattrs.py from the AST of the function; tied to the real tool by the `is-mutated` two-build histories of c09.py. -/
+
+/-- one output of the command at scan time: the node's kind and flag, the file information recorded in the stored result
+(`value.getNthOutputInfo(i)`) and the one on disk now (`node->getFileInfo(..)`); `none` = `isMissing()` -/
+structure OutputState where
+  isVirtual : Bool
+  isMutated : Bool
+  recorded : Option Nat
+  current : Option Nat
+  deriving DecidableEq, Repr
+
+inductive BeforeCheck
+  | alwaysOutOfDate          -- if (alwaysOutOfDate) return false;
+  | notSuccessfulCommand     -- if (!value.isSuccessfulCommand()) return false;
+  deriving DecidableEq, Repr
+
+inductive OutputStep
+  /-- `if (node->isVirtual()) continue;` -/
+  | skipVirtual
+  /-- `if (node->isMutated()) { if (recorded.isMissing() != info.isMissing()) return false; continue; }` when `thenContinue`;
+  `if (node->isMutated()) return recorded.isMissing() == info.isMissing();` otherwise (the function RETURNS: later outputs are not looked at) -/
+  | mutatedExistence (thenContinue : Bool)
+  /-- `if (recorded != info) return false;` -/
+  | compareInfo
+  deriving DecidableEq, Repr
+
+structure ResultValidChain where
+  before : List BeforeCheck
+  perOutput : List OutputStep
+  after : Bool
+  deriving DecidableEq, Repr
+
+/-- what one step of an iteration decides -/
+inductive Verdict
+  | fallThrough        -- next statement of the iteration
+  | nextOutput         -- `continue`
+  | ret (v : Bool)     -- `return v`
+  deriving DecidableEq, Repr
+
+def OutputStep.run (o : OutputState) : OutputStep → Verdict
+  | .skipVirtual => if o.isVirtual then .nextOutput else .fallThrough
+  | .mutatedExistence thenContinue =>
+    if o.isMutated then
+      (if o.recorded.isNone != o.current.isNone then .ret false else if thenContinue then .nextOutput else .ret true)
+    else .fallThrough
+  | .compareInfo => if o.recorded != o.current then .ret false else .fallThrough
+
+/-- one iteration: `none` = go on with the next output -/
+def runIteration (o : OutputState) : List OutputStep → Option Bool
+  | [] => none
+  | s :: ss => match s.run o with
+    | .fallThrough => runIteration o ss
+    | .nextOutput => none
+    | .ret v => some v
+
+def runOutputs (c : ResultValidChain) : List OutputState → Bool
+  | [] => c.after
+  | o :: os => match runIteration o c.perOutput with
+    | some v => v
+    | none => runOutputs c os
+
+/-- `isResultValid` for a command with the flag `alwaysOutOfDate`, a stored value that is / is not a successful command
+result, and the outputs in declaration order -/
+def resultValidOf (c : ResultValidChain) (alwaysOutOfDate successful : Bool) (outs : List OutputState) : Bool :=
+  if c.before.any (fun b => match b with | .alwaysOutOfDate => alwaysOutOfDate | .notSuccessfulCommand => !successful) then false
+  else runOutputs c outs
+
+/-- the output still matches what the command produced: virtual outputs always; a mutated one if it still exists / is still
+missing; any other if its file information is the recorded one -/
+def OutputState.matches (o : OutputState) : Bool :=
+  o.isVirtual || (if o.isMutated then o.recorded.isNone == o.current.isNone else o.recorded == o.current)
+
 end LLBuild.BSAttrs
